@@ -101,6 +101,11 @@ var stmtFaults = []stmtFault{
 	{"toomany", " f1(1, 2)§", "false", true, false},
 	{"fieldmissing", " d.Nofield = 1§", "false", true, false},
 	{"strkeyslice", " y = d.SL[\"k\"]§", "false", true, false},
+	// the same call text twice in one rule: the first occurrence succeeds, the second one fails
+	{"repeatfn", " q = 1\n y = inv(q)\n q = z\n y = inv(q)§", "z != 0", true, false},
+	{"repeatfnstmt", " q = 1\n inv(q)\n q = z\n inv(q)§", "z != 0", true, false},
+	{"repeatmethod", " q = 1\n y = d.Inv(q)\n q = z\n y = d.Inv(q)§", "z != 0", true, false},
+	{"repeat3", " q = 1\n dd.P.Inv(q)\n q = z\n dd.P.Inv(q)§", "z != 0", true, false},
 }
 
 const c09Lib = `
@@ -108,6 +113,7 @@ type In struct{ A int64 }
 
 func (in *In) Get(a int64) int64 { return in.A + a }
 func (in *In) GetB(a bool) int64 { return in.A }
+func (in *In) Inv(a int64) int64 { return 100 / a }
 
 type CD struct {
 	I  int64
@@ -119,6 +125,7 @@ type CD struct {
 
 func (c *CD) PM(a int64) int64 { return c.I + a }
 func (c *CD) BoomSlice() int64 { panic([]string{"a", "b"}) }
+func (c *CD) Inv(a int64) int64  { return 100 / a }
 
 type errBoom struct{}
 
@@ -145,6 +152,7 @@ func mkWorld() *world {
 	w.dc.Add("fi", func() interface{} { return int64(1) })
 	w.dc.Add("f1", func(a int64) int64 { return a })
 	w.dc.Add("fb", func(a bool) int64 { return 1 })
+	w.dc.Add("inv", func(a int64) int64 { return 100 / a })
 	w.dc.Add("boom", func() int64 { panic("boom") })
 	w.dc.Add("boomint", func() int64 { panic(42) })
 	w.dc.Add("boomstruct", func() int64 { panic(In{A: 7}) })
